@@ -316,6 +316,14 @@ def probes(ctx):
                     if rx.ulp_diff(s, float(arr_i[i])) > 2:
                         ctx.fail("index-scalar-intarray:%s:%r" % (cls, int(z)), "%s.index: integer-dtype depth array entry %r != scalar %r at z=%r (%s)" % (cls, float(arr_i[i]), s, int(z), p),
                                  {"kind": "index_scalar_array", **tag, "z": int(z)})
+                zsh = list(zs) + [float(zs[0]), float(zs[-1])]; rng.shuffle(zsh); zsh = np.array(zsh)
+                arr_sh = np.asarray(obj.index(zsh))
+                for i, z in enumerate(zsh):
+                    s = float(obj.index(float(z)))
+                    if arr_sh.shape != zsh.shape or rx.ulp_diff(s, float(arr_sh[i])) > 2:
+                        ctx.fail("index-scalar-array-unsorted:%s:%r" % (cls, float(z)), "%s.index of an unsorted depth array: entry %d differs from scalar %r at z=%r (array %s) (%s)" % (
+                            cls, i, s, float(z), arr_sh.tolist(), p), {"kind": "index_scalar_array", **tag, "z": float(z), "zs": [float(v) for v in zsh]})
+                        break
                 arr = obj.index(zs)
                 for i, z in enumerate(zs):
                     s = float(obj.index(float(z)))
@@ -385,25 +393,46 @@ def probes(ctx):
                         if g[0] != 0 or g[1] != 0 or abs(float(g[2]) - fd) > tol:
                             ctx.fail("gradient:%s:%r" % (cls, z), "%s.gradient(%r)=%r but central difference of index gives %r (tol %.3g)" % (cls, z, list(g), fd, tol),
                                      {"kind": "gradient", **tag, "z": z})
-                # (5) attenuation: shapes, entries equal scalar evaluation, positive and finite
-                m = np.asarray(obj.attenuation_length(zs, fs))
-                row = np.asarray(obj.attenuation_length(float(zs[3]), fs))
-                col = np.asarray(obj.attenuation_length(zs, float(fs[3])))
-                sc = obj.attenuation_length(float(zs[3]), float(fs[3]))
-                shapes_ok = m.shape == (len(zs), len(fs)) and row.shape == (len(fs),) and col.shape == (len(zs),) and np.ndim(sc) == 0
-                if not shapes_ok:
-                    ctx.fail("atten-shape:%s" % cls, "%s.attenuation_length shapes %s %s %s %s" % (cls, m.shape, row.shape, col.shape, np.shape(sc)),
-                             {"kind": "atten_shape", **tag})
-                else:
-                    for i, z in enumerate(zs):
-                        for j, f in enumerate(fs):
-                            s = float(obj.attenuation_length(float(z), float(f)))
-                            ctx.case(key=(cls, "atten", float(z), float(f), json.dumps(p, sort_keys=True)))
-                            okv = close(s, float(m[i, j]), 1e-12, 0) and (i != 3 or close(s, float(row[j]), 1e-12, 0)) and (j != 3 or close(s, float(col[i]), 1e-12, 0))
+                # (5) attenuation: shapes, entries equal scalar evaluation, positive and finite -- for depth and
+                # frequency arrays in ANY order (ascending, descending, shuffled, FFT order |fftfreq| straddling 1 GHz,
+                # repeated entries, length 1): the array branches must be the entry-wise scalar function
+                scal = {}
+
+                def sc_at(z, f):
+                    if (z, f) not in scal:
+                        scal[(z, f)] = float(obj.attenuation_length(float(z), float(f)))
+                    return scal[(z, f)]
+                fft_f = np.abs(np.fft.fftfreq(8, 1.0 / 3.2e9))            # 0, .4, .8, 1.2, 1.6(nyq), 1.2, .8, .4 GHz
+                fft_f[0] = 1.0
+                orders = [(zs, fs, "ascending")]
+                zperm = list(zs); rng.shuffle(zperm)
+                fperm = list(fs); rng.shuffle(fperm)
+                orders.append((np.array(zs[::-1]), np.array(fs[::-1]), "descending"))
+                orders.append((np.array(zperm), np.array(fperm), "shuffled"))
+                orders.append((np.array([zs[3], zs[3], zs[0]]), fft_f, "fft-order"))
+                orders.append((np.array([zs[5 % len(zs)]]), np.array([fs[rng.randrange(len(fs))]]), "length-1"))
+                for zz, ff, oname in orders:
+                    m = np.asarray(obj.attenuation_length(zz, ff))
+                    row = np.asarray(obj.attenuation_length(float(zz[-1]), ff))
+                    col = np.asarray(obj.attenuation_length(zz, float(ff[-1])))
+                    sc = obj.attenuation_length(float(zz[-1]), float(ff[-1]))
+                    shapes_ok = m.shape == (len(zz), len(ff)) and row.shape == (len(ff),) and col.shape == (len(zz),) and np.ndim(sc) == 0
+                    if not shapes_ok:
+                        ctx.fail("atten-shape:%s:%s" % (cls, oname), "%s.attenuation_length shapes %s %s %s %s (%s arrays)" % (cls, m.shape, row.shape, col.shape, np.shape(sc), oname),
+                                 {"kind": "atten_shape", **tag, "zs": [float(v) for v in zz], "fs": [float(v) for v in ff]})
+                        continue
+                    for i, z in enumerate(zz):
+                        for j, f in enumerate(ff):
+                            s = sc_at(float(z), float(f))
+                            ctx.case(key=(cls, "atten", oname, float(z), float(f), json.dumps(p, sort_keys=True)))
+                            okv = (close(s, float(m[i, j]), 1e-12, 0) and (i != len(zz) - 1 or close(s, float(row[j]), 1e-12, 0))
+                                   and (j != len(ff) - 1 or close(s, float(col[i]), 1e-12, 0)))
                             if not okv:
-                                ctx.fail("atten-entry:%s:%r:%r" % (cls, float(z), float(f)), "%s.attenuation_length matrix entry %r != scalar %r at z=%r f=%r" % (cls, float(m[i, j]), s, float(z), float(f)),
-                                         {"kind": "atten_entry", **tag, "z": float(z), "f": float(f)})
-                            if not (s > 0 and math.isfinite(s)):
+                                ctx.fail("atten-entry:%s:%s:%r:%r" % (cls, oname, float(z), float(f)),
+                                         "%s.attenuation_length(%s depth array, %s frequency array): entry [%d,%d] = %r (row %r, column %r) != scalar evaluation %r at z=%r f=%r" % (
+                                             cls, oname, oname, i, j, float(m[i, j]), float(row[j]), float(col[i]), s, float(z), float(f)),
+                                         {"kind": "atten_entry", **tag, "z": float(z), "f": float(f), "zs": [float(v) for v in zz], "fs": [float(v) for v in ff]})
+                            if oname == "ascending" and not (s > 0 and math.isfinite(s)):
                                 key = "atten-nonpositive:%s:%r:%r" % (cls, float(z), float(f))
                                 if cls == "ArasimIce" and -float(z) > 3171.0 and s <= 0:
                                     key = "arasim-attenuation-nonpositive-below-3171m"
@@ -500,4 +529,9 @@ def replay(ctx, obj):
                   " gradient =", o.gradient(z))
             if "f" in obj:
                 print("attenuation_length =", o.attenuation_length(z, obj["f"]))
+            if "zs" in obj and "fs" in obj:
+                zz, ff = np.array(obj["zs"]), np.array(obj["fs"])
+                m = np.asarray(o.attenuation_length(zz, ff))
+                print("matrix attenuation_length(zs, fs) =", m.tolist())
+                print("entry-wise scalar evaluation     =", [[float(o.attenuation_length(float(a), float(b))) for b in ff] for a in zz])
     return 1
